@@ -18,6 +18,9 @@ def render_item(item) -> str:
             return 'run %s%% %s%s' % ('-ignore-exit-code ' if item.get('ignore') else '', item['id'], _args(item))
         if form == '$':
             return '$ %s%s' % (item['id'], _args(item))
+        if form == 'file':
+            # the program fills a file: a program that fails makes the instruction fail (a hard error in every phase)
+            return 'file out-of-%s.txt = -stdout-from %% %s%s' % (item['id'], item['id'], _args(item))
         return '%% %s%s' % (item['id'], _args(item))
     if k == 'real':
         return item['text']
@@ -161,7 +164,7 @@ def _line_of_item_in(text: str, case: dict, ident: str):
                 return None
     for n, line in enumerate(text.split('\n'), 1):
         parts = line.split()
-        if len(parts) >= 2 and parts[-1] == ident and parts[0] in ('sim-fault', '%', '$', 'run'):
+        if len(parts) >= 2 and parts[-1] == ident and parts[0] in ('sim-fault', '%', '$', 'run', 'file'):
             return n
         if len(parts) >= 2 and parts[0] in ('%', '$') and parts[1] == ident:
             return n
